@@ -1,7 +1,7 @@
 import MjProof.Lemmas.CTypeWf
 /-
 C49 (parser half): `parse_type` and `decl()` of python/mujoco/introspect, as modelled in
-`Model/CType.lean` at character level (strings are `List Char`).
+`Model/CType.lean` at character level (strings are lists of code points, `Str = List Nat`).
 
   * `parse_decl_roundtrip`   parse_type(str(t)) == t for every well-formed AST `t`
   * `parse_result_wf`        every AST that parse_type returns is well formed (or the special one)
@@ -26,7 +26,7 @@ theorem parse_decl_roundtrip (t : CType) (h : WF t = true) : parseType (decl t) 
   exact roundtrip_frames hn c v fs hok
 
 /-- non-vacuity: `const unsigned long long (* const *[9])[3][4]`-like type is well formed -/
-example : WF (.array (.pointer (.pointer (.array (.value "unsigned long long".toList true true) [3, 4])
+example : WF (.array (.pointer (.pointer (.array (.value (kw "unsigned long long") true true) [3, 4])
     false true false true) false false false false) [9]) = true := by decide
 
 /-- The special-cased `void *(*)(void *)` value type round-trips as well. -/
@@ -44,9 +44,9 @@ theorem decl_parse_equiv (s : Str) (t : CType) (h : parseType s = some t) : pars
   · exact special_roundtrip
 
 /-- non-vacuity: a string with west const, nested parentheses and a multi-dimensional array parses -/
-example : parseType "int unsigned volatile long const long(**const(*const restrict*[9])[7])[3][4]".toList =
+example : parseType (kw "int unsigned volatile long const long(**const(*const restrict*[9])[7])[3][4]") =
     some (.array (.pointer (.pointer (.array (.pointer (.pointer (.array
-      (.value "int unsigned long long".toList true true) [3, 4]) false false false false) false true false false) [7])
+      (.value (kw "int unsigned long long") true true) [3, 4]) false false false false) false true false false) [7])
       false true false true) false false false false) [9]) := by decide
 
 /-- The printer is injective on well-formed types (consequence of the round trip). -/
